@@ -90,6 +90,10 @@ def run(check, an: Analysis):
             for flags, stores, handler, path, index in entries:
                 name = handler[0].node.name if handler and handler[0].node.name else None
                 value = stores[0]['value'] if stores else None
+                if value is not None:
+                    # (a pair, or a record made of the same two items)
+                    value = rules.value_expr(path, rules.event_index(path, stores[0]), value,
+                                             keep=(name,) if name else ())
                 stored_ok &= (name is not None and isinstance(value, ast.Tuple)
                               and len(value.elts) == 2
                               and isinstance(value.elts[1], ast.Name)
@@ -136,9 +140,14 @@ def run(check, an: Analysis):
                        'the failure list starts empty and is never replaced')
     check.floor('X', 3)
     exc_prop = an.method(_scope.TASK, '__exception__')
-    returns = [n for n in ast.walk(exc_prop.node) if isinstance(n, ast.Return)]
-    check.instance('X', 'Task.__exception__', len(returns) == 1 and
-                   ast.unparse(returns[0].value) == 'self._result[1]', where_fn(exc_prop),
+    returned = {rules.value_text(p, len(p.events) - 1, p.outcome[1])
+                for p in an.paths(Callee(exc_prop, _scope.TASK))
+                if p.kind == 'return' and p.outcome[1] is not None and p.events}
+    returned |= {ast.unparse(n.value) for n in ast.walk(exc_prop.node)
+                 if isinstance(n, ast.Return) and n.value is not None} \
+        if not returned else set()
+    check.instance('X', 'Task.__exception__', returned == {'self._result[1]'},
+                   where_fn(exc_prop),
                    '__exception__ is the error component of the stored result')
     # ---- C ------------------------------------------------------------------
     collect = an.callee(SCOPE, '_collect_exceptions')
